@@ -27,7 +27,7 @@ for _pid in PENDING:
 EXTRA_MODULES = {
     "C05": ["Proofs.C05Render"],
     "C07": ["Proofs.C07", "Proofs.C07Lines"],
-    "C08": ["Proofs.C08"],
+    "C08": ["Proofs.C08", "Proofs.C08Source"],
     "C10": ["Proofs.C10"],
     "C11": ["Proofs.C11"],
     "C12": ["Proofs.C12"],
